@@ -147,6 +147,11 @@ struct Obs {
     filw: Vec<u64>,
     ins: Vec<u64>,
     mp: Vec<u64>,
+    clr: Vec<u64>,
+    getm: Vec<u64>,
+    setv: Vec<u64>,
+    nthv: Vec<u64>,
+    wpos: Vec<u64>,
 }
 
 fn flat(r: Option<Vec<u64>>) -> Vec<u64> {
@@ -159,74 +164,213 @@ fn flat(r: Option<Vec<u64>>) -> Vec<u64> {
     }
 }
 
-fn observe(h: usize, w: usize, ops: &[Op], borrowed: bool, ir: usize, ic: usize, items: &[u64]) -> Obs {
-    // every observation starts from a fresh surface; `borrowed` selects &mut SurfaceOwned as the base
-    macro_rules! with_chain {
-        ($owned:ident, $cur:ident, $body:expr) => {{
-            let mut $owned = fresh(h, w);
-            let base: Dyn = if borrowed { Box::new(&mut $owned) } else { Box::new($owned.clone()) };
-            #[allow(unused_mut)]
-            let mut $cur = build(base, ops);
-            $body
-        }};
+type DynRo<'a> = Box<dyn Surface<Item = u64> + 'a>;
+
+fn build_ro<'a>(base: DynRo<'a>, ops: &[Op]) -> DynRo<'a> {
+    let mut cur = base;
+    for op in ops {
+        cur = match op {
+            Op::View(r, c) => Box::new(cur.view_owned(r.clone(), c.clone())),
+            Op::T => Box::new(cur.transpose()),
+        };
     }
-    let (shape, empty, it, gets) = with_chain!(owned, cur, {
-        let s = cur.shape();
-        let shape = vec![s.start as u64, s.end as u64, s.width as u64, s.height as u64, s.row_stride as u64, s.col_stride as u64];
-        let it: Vec<u64> = cur.iter().copied().collect();
-        let mut gets = vec![];
-        for r in 0..=s.height {
-            for c in 0..=s.width {
-                gets.push(cur.get(Position::new(r, c)).map(|v| v + 1).unwrap_or(0));
+    cur
+}
+
+/// everything that can be asked of a surface without mutating it
+struct ReadObs {
+    shape: Vec<u64>,
+    empty: bool,
+    it: Vec<u64>,
+    gets: Vec<u64>,
+    nthv: Vec<u64>,
+    wpos: Vec<u64>,
+    mp: Vec<u64>,
+}
+
+fn read_obs<S: Surface<Item = u64>>(cur: &S, nk: usize) -> ReadObs {
+    let s = cur.shape();
+    let shape = vec![s.start as u64, s.end as u64, s.width as u64, s.height as u64, s.row_stride as u64, s.col_stride as u64];
+    let it: Vec<u64> = cur.iter().copied().collect();
+    let mut gets = vec![];
+    // one row and one column beyond the window, and far outside
+    for r in 0..=s.height {
+        for c in 0..=s.width {
+            gets.push(cur.get(Position::new(r, c)).map(|v| v + 1).unwrap_or(0));
+        }
+    }
+    assert!(cur.get(Position::new(s.height + 7, 0)).is_none());
+    assert!(cur.get(Position::new(0, s.width + 9)).is_none());
+    assert!(cur.get(Position::new(usize::MAX, usize::MAX)).is_none());
+    // iter().nth(nk), then position(), then next()
+    let mut iter = cur.iter();
+    let a = iter.nth(nk).map(|v| v + 1).unwrap_or(0);
+    let p = iter.position();
+    let b = iter.next().map(|v| v + 1).unwrap_or(0);
+    let nthv = vec![a, p.row as u64, p.col as u64, b];
+    let mut wpos = vec![];
+    for (p, v) in cur.iter().with_position() {
+        wpos.extend([p.row as u64, p.col as u64, *v]);
+    }
+    let m = cur.map(|pos, v| fw(pos, *v));
+    // to_owned_surf must agree with the identity map
+    let o = cur.to_owned_surf();
+    assert_eq!(o.data().to_vec(), it);
+    ReadObs { shape, empty: cur.is_empty(), it, gets, nthv, wpos, mp: m.data().to_vec() }
+}
+
+/// which mutation to run through the view; the result is the whole backing vector afterwards
+#[derive(Clone, Copy)]
+enum Mutn {
+    Ptrs,
+    Fill,
+    FillWith,
+    Clear,
+    Insert,
+    Set,
+    GetMut,
+}
+
+fn mut_obs<S: SurfaceMut<Item = u64>>(cur: &mut S, m: Mutn, ir: usize, ic: usize, items: &[u64]) -> Vec<u64> {
+    match m {
+        Mutn::Ptrs => {
+            let base = cur.data().as_ptr() as usize;
+            let mut ptrs = vec![];
+            for r in cur.iter_mut() {
+                ptrs.push(((r as *mut u64 as usize) - base) as u64 / 8);
             }
+            ptrs
         }
-        (shape, cur.is_empty(), it, gets)
-    });
-    let muts = with_chain!(owned, cur, {
-        let base = cur.data().as_ptr() as usize;
-        let mut ptrs = vec![];
-        for r in cur.iter_mut() {
-            ptrs.push(((r as *mut u64 as usize) - base) as u64 / 8);
-        }
-        ptrs
-    });
-    let fil = flat(catch(std::panic::AssertUnwindSafe(|| {
-        with_chain!(owned, cur, {
+        Mutn::Fill => {
             cur.fill(7777);
             cur.data().to_vec()
-        })
-    })));
-    let filw = flat(catch(std::panic::AssertUnwindSafe(|| {
-        with_chain!(owned, cur, {
+        }
+        Mutn::FillWith => {
             cur.fill_with(fw);
             cur.data().to_vec()
-        })
-    })));
-    let ins = flat(catch(std::panic::AssertUnwindSafe(|| {
-        with_chain!(owned, cur, {
+        }
+        Mutn::Clear => {
+            cur.clear();
+            cur.data().to_vec()
+        }
+        Mutn::Insert => {
             cur.insert(Position::new(ir, ic), items.iter().copied());
             cur.data().to_vec()
-        })
-    })));
-    let mp = flat(catch(std::panic::AssertUnwindSafe(|| {
-        with_chain!(owned, cur, {
-            let m = cur.map(|pos, v| fw(pos, *v));
-            // to_owned_surf must agree with the identity map
-            let o = cur.to_owned_surf();
-            let same: Vec<u64> = cur.iter().copied().collect();
-            assert_eq!(o.data().to_vec(), same);
-            m.data().to_vec()
-        })
-    })));
-    Obs { shape, empty, it, gets, muts, fil, filw, ins, mp }
+        }
+        Mutn::Set => {
+            let old = cur.set(Position::new(ir, ic), 4242);
+            let mut v = vec![old];
+            v.extend(cur.data().iter().copied());
+            v
+        }
+        Mutn::GetMut => {
+            let s = cur.shape();
+            let mut gets = vec![];
+            for r in 0..=s.height {
+                for c in 0..=s.width {
+                    gets.push(cur.get_mut(Position::new(r, c)).map(|v| *v + 1).unwrap_or(0));
+                }
+            }
+            gets
+        }
+    }
+}
+
+/// how the last step of the chain is taken: the view kinds and wrappers of the Surface / SurfaceMut API
+#[derive(Clone, Copy, PartialEq, Debug)]
+enum Kind {
+    Owned,   // view_owned / transpose all the way (nested owned views)
+    View,    // the last view(rows, cols) through Surface::view (borrowed, immutable)
+    ViewMut, // the last view through SurfaceMut::view_mut (borrowed, mutable)
+    AsRef,   // the whole chain, then Surface::as_ref
+    AsMut,   // the whole chain, then SurfaceMut::as_mut
+    Arc,     // the root behind an Arc (impl Surface for Arc<S>)
+    Ref,     // the root behind a shared reference (impl Surface for &S)
+}
+
+fn kind_of(s: &str) -> Kind {
+    match s {
+        "view" => Kind::View,
+        "view_mut" => Kind::ViewMut,
+        "as_ref" => Kind::AsRef,
+        "as_mut" => Kind::AsMut,
+        "arc" => Kind::Arc,
+        "ref" => Kind::Ref,
+        _ => Kind::Owned,
+    }
+}
+
+fn observe(h: usize, w: usize, ops: &[Op], borrowed: bool, kind: Kind, ir: usize, ic: usize, items: &[u64], nk: usize) -> Obs {
+    // the last step, if it is a view and the kind wants to take it differently
+    let (prefix, last): (&[Op], Option<(Sel, Sel)>) = match (kind, ops.last()) {
+        (Kind::View, Some(Op::View(r, c))) | (Kind::ViewMut, Some(Op::View(r, c))) => (&ops[..ops.len() - 1], Some((r.clone(), c.clone()))),
+        _ => (ops, None),
+    };
+    // every observation starts from a fresh surface; `borrowed` selects &mut SurfaceOwned as the base
+    let ro = {
+        let mut owned = fresh(h, w);
+        match kind {
+            Kind::Arc => {
+                let cur = build_ro(Box::new(std::sync::Arc::new(owned)), ops);
+                read_obs(&cur, nk)
+            }
+            Kind::Ref => {
+                let cur = build_ro(Box::new(&owned), ops);
+                read_obs(&cur, nk)
+            }
+            _ => {
+                let base: Dyn = if borrowed { Box::new(&mut owned) } else { Box::new(owned.clone()) };
+                let mut cur = build(base, prefix);
+                match (kind, &last) {
+                    (Kind::View, Some((r, c))) => read_obs(&cur.view(r.clone(), c.clone()), nk),
+                    (Kind::ViewMut, Some((r, c))) => read_obs(&cur.view_mut(r.clone(), c.clone()), nk),
+                    (Kind::AsRef, _) | (Kind::View, None) => read_obs(&Surface::as_ref(&cur), nk),
+                    (Kind::AsMut, _) | (Kind::ViewMut, None) => read_obs(&SurfaceMut::as_mut(&mut cur), nk),
+                    _ => read_obs(&cur, nk),
+                }
+            }
+        }
+    };
+    // mutations: through view_mut / as_mut when the kind is a mutable one, else through the owned chain
+    let run_mut = |m: Mutn| -> Option<Vec<u64>> {
+        catch(std::panic::AssertUnwindSafe(|| {
+            let mut owned = fresh(h, w);
+            let base: Dyn = if borrowed { Box::new(&mut owned) } else { Box::new(owned.clone()) };
+            let mut cur = build(base, prefix);
+            match (kind, &last) {
+                (Kind::ViewMut, Some((r, c))) => mut_obs(&mut cur.view_mut(r.clone(), c.clone()), m, ir, ic, items),
+                (Kind::View, Some((r, c))) => mut_obs(&mut cur.view_owned(r.clone(), c.clone()), m, ir, ic, items),
+                (Kind::AsMut, _) | (Kind::ViewMut, None) => mut_obs(&mut SurfaceMut::as_mut(&mut cur), m, ir, ic, items),
+                _ => mut_obs(&mut cur, m, ir, ic, items),
+            }
+        }))
+    };
+    Obs {
+        shape: ro.shape,
+        empty: ro.empty,
+        it: ro.it,
+        gets: ro.gets,
+        muts: run_mut(Mutn::Ptrs).unwrap_or_default(),
+        fil: flat(run_mut(Mutn::Fill)),
+        filw: flat(run_mut(Mutn::FillWith)),
+        ins: flat(run_mut(Mutn::Insert)),
+        mp: { let mut v = ro.mp; v.insert(0, 1); v },
+        clr: flat(run_mut(Mutn::Clear)),
+        getm: run_mut(Mutn::GetMut).unwrap_or_default(),
+        setv: flat(run_mut(Mutn::Set)),
+        nthv: ro.nthv,
+        wpos: ro.wpos,
+    }
 }
 
 pub fn run(input: &Value) -> Case {
     let h = input["H"].as_u64().unwrap_or(0) as usize;
     let w = input["W"].as_u64().unwrap_or(0) as usize;
     let borrowed = input["borrowed"].as_bool().unwrap_or(false);
+    let kind = kind_of(input["kind"].as_str().unwrap_or("owned"));
     let ir = input["ir"].as_u64().unwrap_or(0) as usize;
     let ic = input["ic"].as_u64().unwrap_or(0) as usize;
+    let nk = input["nk"].as_u64().unwrap_or(0) as usize;
     let items: Vec<u64> = input["items"].as_array().map(|a| a.iter().map(|x| x.as_u64().unwrap_or(0)).collect()).unwrap_or_default();
     let ops: Vec<Op> = input["ops"]
         .as_array()
@@ -238,7 +382,7 @@ pub fn run(input: &Value) -> Case {
         .unwrap_or_default();
     let o2 = ops.clone();
     let it2 = items.clone();
-    let obs = catch(std::panic::AssertUnwindSafe(move || observe(h, w, &o2, borrowed, ir, ic, &it2)));
+    let obs = catch(std::panic::AssertUnwindSafe(move || observe(h, w, &o2, borrowed, kind, ir, ic, &it2, nk)));
     let ops_coq = clist(ops.iter().map(|o| match o {
         Op::T => "OpT".to_string(),
         Op::View(r, c) => format!("(OpView {} {})", r.coq(), c.coq()),
@@ -246,16 +390,17 @@ pub fn run(input: &Value) -> Case {
     let mut j = input.clone();
     let (coq, nontrivial, tags) = match obs {
         Some(o) => {
-            j["impl"] = json!({"shape": o.shape, "iter": o.it, "muts": o.muts, "fill": o.fil, "insert": o.ins});
+            j["impl"] = json!({"shape": o.shape, "iter": o.it, "muts": o.muts, "fill": o.fil, "insert": o.ins, "clear": o.clr, "set": o.setv, "nth": o.nthv});
             let nviews = ops.iter().filter(|o| matches!(o, Op::View(..))).count();
             let nt = ops.iter().filter(|o| matches!(o, Op::T)).count();
             let area = o.shape[2] * o.shape[3];
             (
                 format!(
-                    "S07 {} {} {} {} {} {} {} {} {} {} {} {} {} {} {}",
-                    cnat(h), cnat(w), ops_coq, cnat(ir), cnat(ic), cnums(&items),
+                    "S07 {} {} {} {} {} {} {} {} {} {} {} {} {} {} {} {} {} {} {} {} {}",
+                    cnat(h), cnat(w), ops_coq, ir, ic, cnums(&items), cnat(nk),
                     cnums(&o.shape), cbool(o.empty), cnums(&o.it), cnums(&o.gets), cnums(&o.muts),
-                    cnums(&o.fil), cnums(&o.filw), cnums(&o.ins), cnums(&o.mp)
+                    cnums(&o.fil), cnums(&o.filw), cnums(&o.ins), cnums(&o.mp),
+                    cnums(&o.clr), cnums(&o.getm), cnums(&o.setv), cnums(&o.nthv), cnums(&o.wpos)
                 ),
                 nviews >= 1 && area >= 2 && (area as usize) < h * w,
                 vec![
@@ -263,13 +408,17 @@ pub fn run(input: &Value) -> Case {
                     format!("transposes={}", nt.min(3)),
                     format!("area={}", if area == 0 { "0" } else if area < 4 { "1-3" } else { "4+" }),
                     format!("borrowed={}", borrowed),
+                    format!("kind={:?}", kind),
                 ],
             )
         }
         None => {
             j["impl"] = json!("panic");
             (
-                format!("S07 {} {} {} {} {} {} [] false [] [] [] [0] [0] [0] [0]", cnat(h), cnat(w), ops_coq, cnat(ir), cnat(ic), cnums(&items)),
+                format!(
+                    "S07 {} {} {} {} {} {} {} [] false [] [] [] [0] [0] [0] [0] [0] [] [0] [] []",
+                    cnat(h), cnat(w), ops_coq, ir, ic, cnums(&items), cnat(nk)
+                ),
                 true,
                 vec!["panic".to_string()],
             )
@@ -281,9 +430,17 @@ pub fn run(input: &Value) -> Case {
 pub fn generate(rng: &mut Rng, n: usize, _tier: &str) -> Vec<Value> {
     let mut v = vec![];
     while v.len() < n {
-        let h = if rng.chance(1, 12) { 0 } else { 1 + rng.below(8) as usize };
-        let w = if rng.chance(1, 12) { 0 } else { 1 + rng.below(8) as usize };
-        let depth = rng.below(6) as usize;
+        // mostly small roots, now and then a larger one
+        let dim = |rng: &mut Rng| -> usize {
+            match rng.below(24) {
+                0 | 1 => 0,
+                2 => 9 + rng.below(24) as usize,
+                _ => 1 + rng.below(8) as usize,
+            }
+        };
+        let h = dim(rng);
+        let w = dim(rng);
+        let depth = rng.below(7) as usize; // 0..=6 operations
         let mut ops = vec![];
         let (mut ch, mut cw) = (h, w);
         for _ in 0..depth {
@@ -299,11 +456,22 @@ pub fn generate(rng: &mut Rng, n: usize, _tier: &str) -> Vec<Value> {
                 ops.push(json!({"r": r.json(), "c": c.json()}));
             }
         }
-        let ir = rng.below(ch as u64 + 2) as usize;
-        let ic = rng.below(cw as u64 + 2) as usize;
+        // position for insert / set: inside, just outside, far outside, and (rarely) so large that the usize
+        // index arithmetic of insert overflows
+        let coord = |rng: &mut Rng, d: usize| -> u64 {
+            match rng.below(20) {
+                0 => d as u64 + 5 + rng.below(50),
+                1 => *rng.pick(&[u64::MAX, u64::MAX - 1, 1u64 << 63, (1u64 << 32) + 1, 1u64 << 40]),
+                _ => rng.below(d as u64 + 2),
+            }
+        };
+        let ir = coord(rng, ch);
+        let ic = coord(rng, cw);
         let nitems = rng.below(8) as usize;
         let items: Vec<u64> = (0..nitems).map(|i| 9000 + i as u64).collect();
-        v.push(json!({"H": h, "W": w, "ops": ops, "borrowed": rng.chance(1, 2), "ir": ir, "ic": ic, "items": items}));
+        let nk = rng.below((ch * cw) as u64 + 3);
+        let kind = *rng.pick(&["owned", "owned", "view", "view_mut", "view_mut", "as_ref", "as_mut", "arc", "ref"]);
+        v.push(json!({"H": h, "W": w, "ops": ops, "borrowed": rng.chance(1, 2), "kind": kind, "ir": ir, "ic": ic, "items": items, "nk": nk}));
     }
     v
 }
